@@ -107,12 +107,15 @@ func validReply(cmd, name, variant string) string {
 func procScript(in PPIn, name, fifo string) string {
 	var sb strings.Builder
 	// most plugins read their request; one in three answers (or fails) without ever looking at its input
-	if ppSalt(name)%3 == 0 {
+	if in.Timing == "unstartable" {
+		// no interpreter line: the kernel refuses to execute the file; handed to a shell all the same it would run
+		sb.WriteString("# a script without an interpreter line\ncat > /dev/null\n")
+	} else if ppSalt(name)%3 == 0 {
 		sb.WriteString("#!/bin/sh\n")
 	} else {
 		sb.WriteString("#!/bin/sh\ncat > /dev/null\n")
 	}
-	if in.Timing == "heldPipes" || in.Timing == "slowHeld" || in.Timing == "slowHeldCancel" {
+	if in.Timing == "heldPipes" || in.Timing == "slowHeld" || in.Timing == "slowHeldCancel" || in.Timing == "unstartable" {
 		// a descendant that inherits stdout/stderr and keeps them open until the harness releases it
 		fmt.Fprintf(&sb, "( read x < %q ) &\n", fifo)
 	}
